@@ -64,8 +64,38 @@ func Alphabet(n int, synData, rst bool) []Event {
 	return a
 }
 
-// Byte is the i-th byte of the sender's stream.
-func Byte(i int) byte { return byte('a' + i%26) }
+// AlphabetCuts is the alphabet for a long stream of n = cuts[len-1] bytes: the data segments
+// are the ranges between any two cut points (cuts ascending, cuts[0] == 0), so segments can
+// span several assembler pages without the alphabet growing with the stream length.
+func AlphabetCuts(cuts []int, synData, rst bool) []Event {
+	n := cuts[len(cuts)-1]
+	a := []Event{{K: SYN}}
+	for i := 0; i < len(cuts); i++ {
+		for j := i + 1; j < len(cuts); j++ {
+			a = append(a, Event{K: DATA, A: cuts[i], B: cuts[j]})
+			if cuts[j] == n {
+				a = append(a, Event{K: DATA, A: cuts[i], B: cuts[j], Fin: true})
+			}
+		}
+	}
+	a = append(a, Event{K: FIN}, Event{K: FLUSHOLD})
+	if synData {
+		a = append(a, Event{K: SYNDATA})
+	}
+	if rst {
+		a = append(a, Event{K: RST})
+	}
+	return a
+}
+
+// Byte is the i-th byte of the sender's stream (letters for the short streams; for long
+// streams a pattern in which a shift by any multiple of a page, or by a few bytes, shows).
+func Byte(i int) byte {
+	if i < 26 {
+		return byte('a' + i)
+	}
+	return byte(0x80 | (i*7+i/251+i/1900*3)&0x7f)
+}
 
 // Segment is the TCP view of an event.
 type Segment struct {
@@ -189,7 +219,7 @@ func (in *Inst) Deliver(dir *Dir, d Delivery, ctx StepCtx) (string, string) {
 	}
 	for i, b := range d.Bytes {
 		if b != Byte(from+i) {
-			return "bytes-mismatch", fmt.Sprintf("pos=%d skip=%d delivered %q but the sender's bytes there are %q (duplicated, reordered or altered)", in.Pos, d.Skip, d.Bytes, want(from, len(d.Bytes)))
+			return "bytes-mismatch", fmt.Sprintf("pos=%d skip=%d delivered %q but the sender's bytes there are %q (duplicated, reordered or altered; first difference at stream offset %d)", in.Pos, d.Skip, clip(d.Bytes), clip(want(from, len(d.Bytes))), from+i)
 		}
 	}
 	for i := in.Pos; i < from; i++ {
@@ -215,6 +245,13 @@ func (in *Inst) Deliver(dir *Dir, d Delivery, ctx StepCtx) (string, string) {
 
 // Keep records what the stream asked to keep for the next hand-over.
 func (in *Inst) Keep(b []byte) { in.keep, in.hasKeep = append([]byte(nil), b...), true }
+
+func clip(b []byte) []byte {
+	if len(b) > 24 {
+		return b[:24]
+	}
+	return b
+}
 
 func want(from, n int) []byte {
 	w := make([]byte, n)
